@@ -80,6 +80,10 @@ class World(object):
                     self.observe_obj(o)
                 self.flags.add("forced reads around an operation")
             getattr(self, "op_" + name)(op)
+            if op.get("twice") and name in ("setop", "update", "shift"):
+                # idempotent operations applied a second time with the same arguments change nothing
+                getattr(self, "op_" + name)(op)
+                self.flags.add("idempotent operation applied twice")
             for o in watch:
                 self.observe_obj(o)
         except _Abort:
@@ -876,7 +880,8 @@ def make_machine(mode, rec, tier, guard=None):
             o = self.world.objs[i]
             vals = sorted(set(o.model.reshape(-1).tolist()) | {o.ix.common, 9, -7})
             v = data.draw(st.one_of(st.none(), st.sampled_from(vals)))
-            self.do({"op": "shift", "i": i, "v": v, "obs": data.draw(st.booleans(), label="observe around")})
+            self.do({"op": "shift", "i": i, "v": v, "obs": data.draw(st.booleans(), label="observe around"),
+                     "twice": data.draw(st.sampled_from([False, False, True]), label="twice")})
 
         @alive
         @rule(data=st.data())
@@ -911,6 +916,7 @@ def make_machine(mode, rec, tier, guard=None):
                 v = data.draw(st.sampled_from(vals))
                 entries.setdefault((v,) + tuple(cell[1:]), []).append(cell[0])
             self.do({"op": "update", "i": i, "obs": data.draw(st.booleans(), label="observe around"),
+                     "twice": data.draw(st.sampled_from([False, False, True]), label="twice"),
                      "entries": [[list(k), sorted(r)] for k, r in sorted(entries.items())]})
 
         @alive
@@ -921,6 +927,8 @@ def make_machine(mode, rec, tier, guard=None):
                 return
             n = self.world.objs[i].model.shape[0]
             mask = data.draw(st.lists(st.booleans(), min_size=n, max_size=n))
+            if data.draw(st.integers(0, 7)) == 0:
+                mask = [True] * n  # nothing filtered out: a no-op
             prev = getattr(self, "last_mask", None)
             if prev is not None and len(prev) == n and data.draw(st.booleans(), label="permute previous mask"):
                 mask = data.draw(st.permutations(prev))  # same length and popcount as the previous call's mask
@@ -960,8 +968,11 @@ def make_machine(mode, rec, tier, guard=None):
                 return
             o = self.world.objs[i]
             vals = sorted(set(o.model.reshape(-1).tolist()) | {o.ix.common})
-            if data.draw(st.integers(0, 3)) == 0:
+            kind = data.draw(st.integers(0, 5))
+            if kind == 0:
                 mapping = None
+            elif kind == 1:
+                mapping = [[v, v] for v in vals]  # the identity: a no-op re-index
             else:
                 keys = data.draw(st.lists(st.sampled_from(vals + [9]), unique=True, max_size=len(vals) + 1))
                 targets = vals + [9, 0, 1, -1, o.ix.common]
@@ -1055,7 +1066,8 @@ def make_machine(mode, rec, tier, guard=None):
                         r = data.draw(st.one_of(st.none(), sorted_rowids(n, 8), sorted_rowids(n, 8)))
                     entries.append([[v] + list(col), r])
             self.do({"op": "setop", "kind": kind, "i": i, "entries": entries,
-                     "as_index": data.draw(st.booleans()), "obs": data.draw(st.booleans(), label="observe around")})
+                     "as_index": data.draw(st.booleans()), "obs": data.draw(st.booleans(), label="observe around"),
+                     "twice": data.draw(st.sampled_from([False, False, True]), label="twice")})
 
         @alive
         @rule(data=st.data())
